@@ -70,6 +70,15 @@ TStep ==
             /\ begun' = begun \ {<<"call", n>>} /\ ncl' = [ncl EXCEPT ![n] = IF @ > 0 THEN @ - 1 ELSE 0]
             /\ UNCHANGED <<storevars, phase, fresh, out, mt0, stale, pm, todo, done, mem, got, nrd, nwr, wr, outcome, outval, dry, lastf, lasto>>
             /\ Note(DryG)
+       [] e.e = "undo" ->
+            \* an operation took effect and then raised (a cut after the effect): with retry it may be performed
+            \* again, so for the run's bookkeeping it has not been performed; its effect on the stores stays
+            /\ begun' = begun \ {<<e.k, n>>} /\ done' = done \ {<<e.k, n>>}
+            /\ nrd' = [nrd EXCEPT ![n] = IF e.k = "read" /\ @ > 0 THEN @ - 1 ELSE @]
+            /\ nwr' = [nwr EXCEPT ![n] = IF e.k = "write" /\ @ > 0 THEN @ - 1 ELSE @]
+            /\ ncl' = [ncl EXCEPT ![n] = IF e.k = "call" /\ @ > 0 THEN @ - 1 ELSE @]
+            /\ UNCHANGED <<storevars, phase, fresh, out, mt0, stale, pm, todo, mem, got, wr, outcome, outval, dry, lastf, lasto>>
+            /\ Note(<<>>)
        [] e.e \in {"readfail", "writefail", "mtimefail", "cut"} ->
             /\ UNCHANGED <<svars, dry, lastf, lasto>>
             /\ Note(IF e.e \in {"readfail", "writefail"} THEN DryG ELSE <<>>)
